@@ -17,8 +17,10 @@ EXTENDS Integers, Sequences, FiniteSets, TLC, Json, IOUtils, SemCommon
 Progs == ndJsonDeserialize(IOEnv.PROGS)
 MaxSteps == IF "MAXSTEPS" \in DOMAIN IOEnv THEN atoi(IOEnv.MAXSTEPS) ELSE 20000
 
-VARIABLES pid, stack, heap, nxt, out, status, retv, steps
-vars == <<pid, stack, heap, nxt, out, status, retv, steps>>
+\* par: goroutines.  The machine runs one goroutine at a time (stack, retv are its state); par.others holds the parked ones,
+\* par.main tells whether the running one is main.  A program without `go` statements never changes par.
+VARIABLES pid, stack, heap, nxt, out, status, retv, steps, par
+vars == <<pid, stack, heap, nxt, out, status, retv, steps, par>>
 
 P == Progs[pid].ast
 Blocks == P.blocks
@@ -333,7 +335,7 @@ RootKind(e, env) ==
   ELSE IF e.k = "un" /\ e.op = "&" THEN "alloc"
   ELSE "pure"
 
-Keep == UNCHANGED <<pid>> /\ steps' = steps + 1
+Keep == UNCHANGED <<pid, par>> /\ steps' = steps + 1
 Fail(why) == /\ status' = [k |-> "failed", why |-> why] /\ UNCHANGED <<stack, heap, nxt, out, retv>> /\ Keep
 Unsupported(why) == /\ status' = [k |-> "unsupported", why |-> why] /\ UNCHANGED <<stack, heap, nxt, out, retv>> /\ Keep
 BadToStatus(v) == IF v.k = "panic" THEN Fail(v.why) ELSE Unsupported(v.why)
@@ -551,7 +553,20 @@ Exec(s, fr0) ==
          ELSE /\ stack' = SetTop(IF hits # {} THEN enter(s.cases[Min(hits)].b)
                                  ELSE IF s.default # <<>> THEN enter(s.default[1]) ELSE fr)
               /\ Same
-    [] s.k = "go" -> Unsupported("go statement (handled by GoSemGo)")
+    [] s.k = "go" ->
+         \* (goroutines are explored only when the driver asks for it -- IOEnv.THREADS; a spin-wait has no bound on its steps)
+         IF "THREADS" \notin DOMAIN IOEnv THEN Unsupported("go statement (explored by the interleaving check of C09)") ELSE
+         \* `go f(args)`: callee and arguments are evaluated by the spawner, the call runs as a new goroutine, the spawner goes on
+         IF s.e.k # "call" \/ RootKind(s.e, fr.env) # "ucall" THEN Unsupported("go of something else than a call of a function value")
+         ELSE LET c == Eval(s.e.f, fr.env, heap)
+                  args == [i \in DOMAIN s.e.a |-> Eval(s.e.a[i], fr.env, heap)] IN
+              IF IsBad(c) THEN BadToStatus(c)
+              ELSE IF \E i \in DOMAIN args : IsBad(args[i]) THEN BadToStatus(args[Min({i \in DOMAIN args : IsBad(args[i])})])
+              ELSE IF c.k # "fn" THEN Unsupported("callee is not a function value")
+              ELSE IF Len(args) # Len(FnOf(c.n).params) THEN Unsupported("argument count")
+              ELSE /\ par' = [par EXCEPT !.others = Append(@, [stack |-> <<NewFrame(c.n, args, [k |-> "discard"])>>,
+                                                                retv |-> [on |-> FALSE, v |-> VUnit], main |-> FALSE])]
+                   /\ stack' = SetTop(fr) /\ steps' = steps + 1 /\ UNCHANGED <<pid, heap, nxt, out, status, retv>>
     [] OTHER -> Unsupported("statement " \o s.k)
 
 Running == status.k = "running"
@@ -570,9 +585,14 @@ StepStmt ==
 StepReturn ==
   /\ Running /\ retv.on /\ stack # <<>> /\ steps < MaxSteps
   /\ LET fr == Top v == Conv(retv.v, RetTy(fr.fn)) rest == SubSeq(stack, 1, Len(stack) - 1) IN
-     IF rest = <<>> THEN
+     IF rest = <<>> /\ par.main THEN          \* main returns: the program ends, whatever the other goroutines are doing
           /\ stack' = <<>> /\ retv' = [on |-> FALSE, v |-> VUnit] /\ status' = [k |-> "ok", why |-> ""]
           /\ UNCHANGED <<heap, nxt, out>> /\ Keep
+     ELSE IF rest = <<>> THEN                  \* another goroutine ends: some parked goroutine (main is among them) goes on
+          \E i \in DOMAIN par.others :
+            /\ stack' = par.others[i].stack /\ retv' = par.others[i].retv
+            /\ par' = [main |-> par.others[i].main, others |-> [j \in 1..(Len(par.others) - 1) |-> par.others[IF j < i THEN j ELSE j + 1]]]
+            /\ steps' = steps + 1 /\ UNCHANGED <<pid, heap, nxt, out, status>>
      ELSE LET caller == rest[Len(rest)] IN
           IF fr.rt.k = "ret" THEN
                /\ stack' = rest /\ retv' = [on |-> TRUE, v |-> v] /\ UNCHANGED <<heap, nxt, out, status>> /\ Keep
@@ -581,15 +601,25 @@ StepReturn ==
 
 OutOfSteps ==
   /\ Running /\ steps >= MaxSteps
-  /\ status' = [k |-> "inconclusive", why |-> "step bound"] /\ UNCHANGED <<pid, stack, heap, nxt, out, retv, steps>>
+  /\ status' = [k |-> "inconclusive", why |-> "step bound"] /\ UNCHANGED <<pid, stack, heap, nxt, out, retv, steps, par>>
+
+\* the scheduler: at any moment another goroutine may run instead of the current one
+Switch ==
+  /\ Running /\ stack # <<>> /\ steps < MaxSteps
+  /\ \E i \in DOMAIN par.others :
+       /\ stack' = par.others[i].stack /\ retv' = par.others[i].retv
+       /\ par' = [main |-> par.others[i].main, others |-> [par.others EXCEPT ![i] = [stack |-> stack, retv |-> retv, main |-> par.main]]]
+  /\ UNCHANGED <<pid, heap, nxt, out, status, steps>>
 
 HasMain == "main" \in DOMAIN P.funcs
 Init == /\ pid \in 1..Len(Progs)
         /\ stack = IF HasMain THEN <<[fn |-> "main", env |-> <<EmptyScope>>, ctl |-> <<[b |-> P.funcs["main"].body, i |-> 1, kind |-> "fn"]>>, rt |-> [k |-> "discard"]]>> ELSE <<>>
         /\ heap = (0 :> [k |-> "none"]) /\ nxt = 1 /\ out = <<>>
         /\ status = IF HasMain THEN [k |-> "running", why |-> ""] ELSE [k |-> "unsupported", why |-> "no main"]
-        /\ retv = [on |-> FALSE, v |-> VUnit] /\ steps = 0
-Next == StepStmt \/ StepReturn \/ OutOfSteps
+        /\ retv = [on |-> FALSE, v |-> VUnit] /\ steps = 0 /\ par = [main |-> TRUE, others |-> <<>>]
+Next == StepStmt \/ StepReturn \/ OutOfSteps \/ Switch
+\* fingerprint for exploring interleavings: a state is the same however many steps led to it (spin loops close into cycles)
+ViewNoSteps == <<pid, stack, heap, nxt, out, status, retv, par>>
 Spec == Init /\ [][Next]_vars
 
 Done == status.k # "running"
